@@ -49,5 +49,6 @@ def run(rep, fb, tier):
     _pr5.rule_py_call_shape(rep)
     from ..rules import pyrules as _pr6, pybind as _pb6
     _pr6.rule_py_behaviorof_args(rep)
+    _pr6.rule_py_numfields_sentinel(rep)
     _pb6.rule_py_record_methods(rep)
     rep.units = fb.units
